@@ -461,6 +461,20 @@ def main():
             print(f"VIOLATION property={prop} replay={p}")
             violations += 1
 
+    # ---- 4c-ter. C18 on core histories (non-dry, decorators, named slice types, failing functions):
+    #      every Info struct against the declaration (tools/infocheck.py)
+    coreinfo_cov = None
+    if prop == "C18":
+        import infocheck
+        icases, itraces, ibad, coreinfo_cov = infocheck.check(tier, seed)
+        if ibad:
+            ci, oi, detail = ibad[0]
+            p = write_replay(prop, f"coreinfo-{case_hash(icases[ci])}",
+                             {"property": prop, "failing_code": 1802, "meaning": "the Info struct of this call differs from the declaration (or was filled / left empty at the wrong time)",
+                              "operation": oi, "detail": detail, "case": icases[ci], "implementation_trace": itraces[ci]})
+            print(f"VIOLATION property={prop} replay={p}")
+            violations += 1
+
     # ---- 4c''. C20: CallbackInfo.Name identifies the function (declared functions: distinct names)
     name_cov = None
     if prop == "C20":
@@ -620,6 +634,9 @@ def main():
         cov["callback_names"] = name_cov
     if id_cov:
         cov["function_ids"] = id_cov
+    if coreinfo_cov:
+        cov["info_on_core_histories"] = coreinfo_cov
+        cov["evaluations"] += coreinfo_cov["histories"]
     if viz_cov:
         cov["visualize"] = viz_cov
         cov["evaluations"] += viz_cov["viz_cases"]
